@@ -281,6 +281,8 @@ def _stable_name(n):
     obligations that mirror code structure (asserts, callee preconditions, raises) are folded
     into one name per function, so harmless refactorings do not change the baseline."""
     import re
+    if "(optional-hint)" in n:
+        return None            # an intermediate fact that is used when the solver finds it in time and skipped otherwise
     n = re.sub(r"\{.*\}$", "", n)          # witness part of bounded failures
     if n.startswith("order-independence."):
         return re.sub(r"#\d+\[.*$", "", n)
